@@ -85,14 +85,14 @@ class PROP(Prop):
     def static_checks(self, w):
         m = extract.load(MULTI)
         out = []
-        fn = m.func("Group.terminate")
+        fn = extract.flat_func(m, "Group.terminate")
         comps = [n for n in ast.walk(fn) if isinstance(n, ast.ListComp)]
         txt = ast.unparse(comps[0]) if comps else ""
         out.append(("static/Group.terminate/pairs-are-join_wait-and-kill-of-the-join-list", len(comps) == 1 and txt == "[(partial(join_wait, gw), partial(kill, gw)) for gw in self._gateways_to_join]", txt[:120]))
         src = ast.unparse(fn)
         order = [src.find("gw.exit()"), src.find("safe_terminate("), src.find("self._gateways_to_join[:] = []")]
         out.append(("static/Group.terminate/exit-then-safe_terminate-then-clear", all(p >= 0 for p in order) and order == sorted(order), f"positions {order}"))
-        mk = m.func("Group.makegateway")
+        mk = extract.flat_func(m, "Group.makegateway")
         msrc = ast.unparse(mk)
         pos = [msrc.find("self.allocate_id(spec)")] + [msrc.find(x) for x in ("create_io(", "remote_exec(gateway_io)")]
         out.append(("static/Group.makegateway/id-allocated-before-any-process-is-started", pos[0] >= 0 and all(p < 0 or pos[0] < p for p in pos[1:]), f"positions {pos}"))
